@@ -9,7 +9,7 @@ structure Site where
   deriving DecidableEq, Repr
 def sites : List Site := [
   ⟨"src/boss_sync.rs", "send_progress_marker_limited", "dest", "Marker", false⟩,
-  ⟨"src/boss_sync.rs", "sync_impl", "dest", "CreateRootAncestors", false⟩,
+  ⟨"src/boss_sync.rs", "sync_impl", "dest", "CreateRootAncestors", true⟩,
   ⟨"src/boss_sync.rs", "sync_impl", "dest", "Marker", false⟩,
   ⟨"src/boss_sync.rs", "sync_impl", "dest", "Marker", false⟩,
   ⟨"src/boss_sync.rs", "get_root_details", "src", "SetRoot", false⟩,
